@@ -102,7 +102,16 @@ func genScRoundtrip(h *H) {
 		for _, d := range []int{-1, 0, 1} {
 			s := h.randScSpec(1, 1)
 			h.tag("len:chunk-boundary")
-			h.Run(scSealCase(s, [][]byte{h.rng.Bytes(k*mib + d)}, sealRng(h.rng, 2), true))
+			msg := h.rng.Bytes(k*mib + d)
+			h.Run(scSealCase(s, [][]byte{msg}, sealRng(h.rng, 2), true))
+			pats := []int{k + d + 1, k + d + 3}
+			if thorough {
+				pats = []int{0, 1, 2, 3, 4}
+			}
+			for _, pt := range pats {
+				h.tag("len:chunk-boundary-streamed")
+				h.Run(scSealCase(s, bigPieces(pt, msg), sealRng(h.rng, 2), false))
+			}
 		}
 	}
 }
